@@ -139,7 +139,9 @@ def monitor(sc, views):
         inc = incoherent(v)
         just_loaded = prev is None or not prev.loaded
         for key, det in inc.items():
-            if key in prev_inc and prev_inc[key] == det and not just_loaded:
+            if key in prev_inc and not just_loaded:
+                # already incoherent before this request: the request that made it so has been reported; whatever
+                # this request does to an already diverged field is a consequence, not a new root cause
                 continue
             if just_loaded and fault == "N" and kind == "sub" and not _sub_changes(sc, k):
                 # the cache was built by the load path in this very request
